@@ -204,6 +204,8 @@ func renderSpelling(v any, sp spelling) []byte {
 		return sg.ToYAML(v, sg.YAMLFlow)
 	case "yamlbare":
 		return sg.ToYAML(v, sg.YAMLBlockBare)
+	case "yamlflowbare":
+		return sg.ToYAML(v, sg.YAMLFlowBare)
 	}
 	return jsonx.MarshalIndent(v)
 }
@@ -220,7 +222,7 @@ func c13(ctx *Ctx) (*Outcome, error) {
 		libPath string
 	}
 	var jobs []*job
-	formats := []string{"json", "yamlblock", "jsonwide", "yamlflow", "jsontabs", "yamlbare", "jsoncompact", "jsonescaped"}
+	formats := []string{"json", "yamlblock", "jsonwide", "yamlflow", "jsontabs", "yamlbare", "jsoncompact", "jsonescaped", "yamlflowbare"}
 	for i := 0; i < n; i++ {
 		r := sg.NewRng(ctx.Seed, fmt.Sprintf("C13-case-%d", i))
 		o := sg.Opts{MaxDepth: 3, Descs: true, PDefault: 0.3, PNullable: 0.2, PAddProps: 0.3, W: map[string]float64{"untyped": 2.5, "ref": 3, "object": 3, "map": 1.2}}
